@@ -38,6 +38,9 @@ func (V *Verifier) runTop(fn *ssa.Function, key string, fs *FuncSpec, cands map[
 	if fs != nil && fs.Opts["safety"] == "bounds" {
 		X.SafetyBounds = true
 	}
+	if fs != nil && fs.Opts["arith"] == "wrap64" {
+		X.Wrap64 = true
+	}
 	X.TopFn, X.TopKey, X.TopSpec = fn, key, fs
 	X.probe = probe
 	X.LockMode = lockMode
@@ -308,7 +311,7 @@ func (V *Verifier) verifyFunc(key string, lockMode bool) *FuncResult {
 		for _, cc := range X.candChecks {
 			obls = append(obls, &Obligation{Fn: key, Kind: "houdini", Hyp: cc.Hyp, Goal: cc.Goal})
 		}
-		V.Solver.Discharge(E.TS, obls, 3.0, true)
+		V.Solver.Discharge(E.TS, obls, 6.0, true)
 		changed := false
 		for i, cc := range X.candChecks {
 			if obls[i].Status != "proved" && cc.C.Alive {
